@@ -724,3 +724,12 @@ package server
 // scheduling points (verification hook, see verifpoint_verif.go): the hook changes nothing
 //@ assume func verifPoint
 //@   modifies nothing
+
+// where the activity dispatcher resumes must survive a restart from a snapshot (property C18): Restore rebuilds the
+// whole state machine from the snapshot, so it has to re-install the last published index as well - otherwise a
+// restart after the log was compacted resumes at index 1, which is no longer in the log
+//@ ghost var activityIndexRestored bool
+//@ func (*Server).Restore serves C18
+//@   ghost at entry: ghost.activityIndexRestored := false
+//@   ghost after call SetLastPublishedRaftIndex: ghost.activityIndexRestored := true
+//@   ensures [last-published-index-restored] result == nil ==> ghost.activityIndexRestored
